@@ -730,9 +730,11 @@ protected:
             {
                 if (outsideCDATA == true)
                 {
+                    // The previous character was written as a character
+                    // reference outside of the section, so open it again.
                     m_writer.write(
-                        m_constants.s_cdataCloseString,
-                        m_constants.s_cdataCloseStringLength);
+                        m_constants.s_cdataOpenString,
+                        m_constants.s_cdataOpenStringLength);
                 }
 
                 m_writer.write(value_type(XalanUnicode::charRightSquareBracket));
@@ -774,12 +776,8 @@ protected:
             ++i;
         }
 
-        if(outsideCDATA == true)
-        {
-            m_writer.write(
-                m_constants.s_cdataOpenString,
-                m_constants.s_cdataOpenStringLength);
-        }
+        // If the last character was written outside of the section, the
+        // section is already closed, and the caller will not close it again.
     }
 
 
